@@ -422,7 +422,7 @@ func convPoints(r *xs.Result, ds []uint64) {
 		got := vm.DifficultyToPlasma(d)
 		convCheck(r, d, got, refPowPlasma(d), prev)
 		prev = got
-		r.Add("nontrivial", fmt.Sprintf("conv:plasma=%d", got))
+		r.Add("conv_outputs", fmt.Sprintf("plasma=%d", got))
 	}
 	r.Count("conv_difficulty_evaluations", int64(len(all)))
 	// inverse: the difficulty the node asks for a given plasma is the least one that buys it
@@ -473,7 +473,7 @@ func convPoints(r *xs.Result, ds []uint64) {
 		got := vm.FussedAmountToPlasma(arg)
 		want := refFusedPlasma(a)
 		r.Count("conv_fused_evaluations", 1)
-		r.Add("nontrivial", fmt.Sprintf("conv:fusedplasma=%d", got))
+		r.Add("conv_outputs", fmt.Sprintf("fusedplasma=%d", got))
 		if got != want {
 			r.Violate("C12:conv:FussedAmountToPlasma-differs-from-reference", fmt.Sprintf("FussedAmountToPlasma(%v) = %d, reference %d", a, got, want), map[string]interface{}{"part": "conv", "amount": fmt.Sprint(a)})
 		}
